@@ -81,6 +81,14 @@ func classify(a, b Schema) string {
 				}
 			}
 		}
+		for _, f1 := range t.FKs {
+			for _, f2 := range bt.FKs {
+				if strings.Join(f1.Cols, ",") == strings.Join(f2.Cols, ",") && f1.RefTable == f2.RefTable &&
+					strings.Join(f1.RefCols, ",") == strings.Join(f2.RefCols, ",") && f1.Symbol != f2.Symbol && (f1.Symbol == "" || f2.Symbol == "") {
+					set["fk-name-change"] = true
+				}
+			}
+		}
 		for i, k1 := range t.Checks {
 			for j, k2 := range t.Checks {
 				if i < j && mayWrap(k1.Expr) == mayWrap(k2.Expr) {
@@ -220,6 +228,20 @@ func (g *G) witness(class string) (Schema, Schema, bool) {
 				t.AutoIncCols = nil
 				ok = true
 			}
+		case "fk-name-change":
+			at := a.table(t.Name)
+			if len(at.FKs) > 0 && at.FKs[0].Symbol != "" {
+				unnamed := 0
+				for _, f := range t.FKs {
+					if f.Symbol == "" {
+						unnamed++
+					}
+				}
+				if unnamed == 0 {
+					t.FKs[0].Symbol = ""
+					ok = true
+				}
+			}
 		case "check-name-change":
 			at := a.table(t.Name)
 			for _, c := range at.Cols {
@@ -291,4 +313,4 @@ func (g *G) witness(class string) (Schema, Schema, bool) {
 	return Schema{}, Schema{}, false
 }
 
-var knownClasses = []string{"check-name-change", "index-name-moves", "new-table-clash", "autoinc-change", "dup-check-expr", "two-unnamed-fks", "gen-col-name-prefix", "pk-order", "pk-desc", "raw-default-parens", "check-parens", "drop-inline-unique"}
+var knownClasses = []string{"fk-name-change", "check-name-change", "index-name-moves", "new-table-clash", "autoinc-change", "dup-check-expr", "two-unnamed-fks", "gen-col-name-prefix", "pk-order", "pk-desc", "raw-default-parens", "check-parens", "drop-inline-unique"}
